@@ -149,4 +149,48 @@ theorem germinateFormulas_ok {formula : String} {f0 : List Char} {G : List SPerm
       obtain ⟨t, ht, rfl⟩ := ha
       exact h1 t ht
 
+/-- the branches of germinate_formulas: AssertionError iff the first term carries a minus sign, else RuntimeError iff
+    some term is not a rearrangement of the first one, else it returns (the fuel is never exhausted) -/
+theorem germinateFormulas_branches {formula : String} {s0 : ℤ} {f0 : List Char} {rest : List (ℤ × List Char)}
+    (hp : parseTerms formula = (s0, f0) :: rest) :
+    (s0 ≠ 1 → germinateFormulas formula = .error .assertion) ∧
+    (s0 = 1 → (∃ t ∈ (s0, f0) :: rest, termOk f0 t.2 = false) → germinateFormulas formula = .error .runtime) ∧
+    (s0 = 1 → (∀ t ∈ (s0, f0) :: rest, termOk f0 t.2 = true) → ∃ G, germinateFormulas formula = .ok (f0, G)) := by
+  refine ⟨?_, ?_, ?_⟩
+  · intro h
+    unfold germinateFormulas
+    rw [hp]
+    simp [h]
+  · rintro rfl ⟨t, ht, hbad⟩
+    unfold germinateFormulas
+    rw [hp]
+    have : (((1 : ℤ), f0) :: rest).all (fun t => termOk f0 t.2) = false := by
+      rw [← Bool.not_eq_true, List.all_eq_true]
+      intro hh; rw [hh t ht] at hbad; exact Bool.noConfusion hbad
+    simp only [this]
+    simp
+  · rintro rfl hall
+    have hall' : (((1 : ℤ), f0) :: rest).all (fun t => termOk f0 t.2) = true := by
+      rw [List.all_eq_true]; exact hall
+    have hf0nd : f0.Nodup := (termOk_iff.1 (hall _ List.mem_cons_self)).1
+    have hgens : ∀ a ∈ (((1 : ℤ), f0) :: rest).map (termPerm f0),
+        (a.1 = 1 ∨ a.1 = -1) ∧ IsPerm a.2 ∧ a.2.length = f0.length := by
+      intro a ha
+      rw [List.mem_map] at ha
+      obtain ⟨t, ht, rfl⟩ := ha
+      have hsign : t.1 = 1 ∨ t.1 = -1 := by
+        have : t ∈ parseTerms formula := by rw [hp]; exact ht
+        unfold parseTerms at this
+        rw [List.mem_map] at this
+        obtain ⟨f, _, rfl⟩ := this
+        by_cases hf : f.startsWith "-" <;> simp [hf]
+      exact ⟨hsign, termPerm_isPerm hf0nd (hall t ht)⟩
+    obtain ⟨G, hG, _⟩ := germinateSigned_ok (n := f0.length)
+      (gens := (((1 : ℤ), f0) :: rest).map (termPerm f0)) (by simp) hgens
+    refine ⟨G, ?_⟩
+    unfold germinateFormulas
+    rw [hp]
+    simp only [hall', hG]
+    simp
+
 end E3nnVerif.ReduceModel
